@@ -297,7 +297,7 @@ Section Tokeniser.
   Proof.
     intros Hc. unfold first_match. apply find_none_all. intros k Hk.
     unfold keys_okb in KOK. rewrite forallb_forall in KOK. specialize (KOK _ Hk).
-    destruct k as [|c' r]; [reflexivity|]. cbn. destruct (ascii_dec c' c) as [->|NE]; [|reflexivity].
+    destruct k as [|c' r]; [reflexivity|]. cbn. destruct (Ascii.eqb_spec c' c) as [->|NE]; [|reflexivity].
     apply andb_true_iff in KOK as [K1 K2]. apply negb_true_iff in K1, K2. destruct Hc; congruence.
   Qed.
 
